@@ -1,3 +1,157 @@
-(* C02 — property theorems (stub, replaced below) *)
-From GV Require Import lib.Base C01.Model C02.Model.
+(* C02 — property theorems only (fee splitting never creates or loses tokens).
+   Each is closed by a lemma of Proofs.v; statements are pinned here. *)
+From GV Require Import lib.Base C01.Model C02.Model C02.Proofs.
 Open Scope Z_scope.
+
+Ltac use L := first [ exact L | intros w _; exact (L w) | intros w Hw u _; exact (L w Hw u)
+                    | intros w _ u Hu; exact (L w u Hu) | intros w _ u _; exact (L w u)
+                    | intros w Hw u Hu; exact (L w Hw u Hu) ].
+
+(* FeeParams::fee is exactly gross fee minus floor discount; it fails exactly when the gross fee
+   does not fit or the discount exceeds it (discount factor above 100%) *)
+Theorem c02_fee_exact : forall w, 1 <= w -> forall unit, 0 < unit -> forall p bc a q,
+  wf_params p -> 0 <= a ->
+  fee w unit p bc a = Some q <->
+  (Fg unit p bc a < 2 ^ w /\ Dg unit p bc a <= Fg unit p bc a /\ q = Ng unit p bc a).
+Proof. use fee_some. Qed.
+
+Theorem c02_fee_none : forall w, 1 <= w -> forall unit, 0 < unit -> forall p bc a,
+  wf_params p -> 0 <= a ->
+  fee w unit p bc a = None <-> (2 ^ w <= Fg unit p bc a \/ Fg unit p bc a < Dg unit p bc a).
+Proof. use fee_none. Qed.
+
+(* the fee never exceeds the undiscounted fee, nor the gross amount when the factor is <= 100% *)
+Theorem c02_fee_le_gross : forall w, 1 <= w -> forall unit, 0 < unit -> forall p bc a q,
+  wf_params p -> 0 <= a -> fee w unit p bc a = Some q ->
+  0 <= q <= Fg unit p bc a /\ (factor_of p bc <= unit -> q <= a).
+Proof. use fee_le_gross. Qed.
+
+(* a discount never raises the fee *)
+Theorem c02_discount_monotone : forall w, 1 <= w -> forall unit, 0 < unit -> forall p bc a d1 d2 q1 q2,
+  wf_params p -> 0 <= a -> 0 <= d1 <= d2 ->
+  fee w unit (with_disc p (Some d1)) bc a = Some q1 ->
+  fee w unit (with_disc p (Some d2)) bc a = Some q2 -> q2 <= q1.
+Proof. use discount_monotone. Qed.
+
+Theorem c02_discount_never_raises : forall w, 1 <= w -> forall unit, 0 < unit -> forall p bc a d q0 q,
+  wf_params p -> 0 <= a -> 0 <= d ->
+  fee w unit (with_disc p None) bc a = Some q0 ->
+  fee w unit (with_disc p (Some d)) bc a = Some q -> q <= q0.
+Proof. use discount_never_raises. Qed.
+
+(* swap / deposit / withdrawal fee: exact split of the gross amount, for ALL factors *)
+Theorem c02_apply_fees_split : forall w, 1 <= w -> forall unit, 0 < unit -> forall p bc a n pl r,
+  wf_params p -> 0 <= a < 2 ^ w ->
+  apply_fees w unit p bc a = Some (n, pl, r) ->
+  n + pl + r = a /\ 0 <= n /\ 0 <= pl /\ 0 <= r /\
+  fee w unit p bc a = Some (pl + r) /\ pl + r <= a /\
+  receiver_fee w unit p (pl + r) = Some r.
+Proof. use apply_fees_split. Qed.
+
+(* exact success / failure characterisation *)
+Theorem c02_apply_fees_exact : forall w, 1 <= w -> forall unit, 0 < unit -> forall p bc a n pl r,
+  wf_params p -> 0 <= a < 2 ^ w ->
+  apply_fees w unit p bc a = Some (n, pl, r) <->
+  (Fg unit p bc a < 2 ^ w /\ Dg unit p bc a <= Fg unit p bc a /\ Rg unit p bc a <= Ng unit p bc a /\
+   Ng unit p bc a <= a /\
+   n = a - Ng unit p bc a /\ pl = Ng unit p bc a - Rg unit p bc a /\ r = Rg unit p bc a).
+Proof. use apply_fees_some. Qed.
+
+Theorem c02_apply_fees_none : forall w, 1 <= w -> forall unit, 0 < unit -> forall p bc a,
+  wf_params p -> 0 <= a < 2 ^ w ->
+  apply_fees w unit p bc a = None <->
+  (2 ^ w <= Fg unit p bc a \/ Fg unit p bc a < Dg unit p bc a \/ Ng unit p bc a < Rg unit p bc a \/
+   a < Ng unit p bc a).
+Proof. use apply_fees_none. Qed.
+
+(* factors of at most 100%: never fails *)
+Theorem c02_apply_fees_valid_total : forall w, 1 <= w -> forall unit, 0 < unit -> forall p bc a,
+  wf_params p -> valid_params unit p -> 0 <= a < 2 ^ w ->
+  exists n pl r, apply_fees w unit p bc a = Some (n, pl, r).
+Proof. use apply_fees_valid_total. Qed.
+
+(* invalid factors fail instead of producing a larger-than-input fee / share *)
+Theorem c02_invalid_factor_fails : forall w, 1 <= w -> forall unit, 0 < unit -> forall p bc a,
+  wf_params p -> 0 <= a < 2 ^ w -> a < Ng unit p bc a -> apply_fees w unit p bc a = None.
+Proof. use invalid_factor_fails. Qed.
+Theorem c02_invalid_discount_fails : forall w, 1 <= w -> forall unit, 0 < unit -> forall p bc a,
+  wf_params p -> 0 <= a < 2 ^ w -> Fg unit p bc a < Dg unit p bc a -> apply_fees w unit p bc a = None.
+Proof. use invalid_discount_fails. Qed.
+Theorem c02_invalid_receiver_fails : forall w, 1 <= w -> forall unit, 0 < unit -> forall p bc a,
+  wf_params p -> 0 <= a < 2 ^ w -> Ng unit p bc a < Rg unit p bc a -> apply_fees w unit p bc a = None.
+Proof. use invalid_receiver_fails. Qed.
+
+(* order fee: value = FeeParams::fee(size), amount = floor(value / min price) split exactly into
+   pool and receiver shares; bounded by the size delta for a factor of at most 100%
+   (complement of known-finding class 1) *)
+Theorem c02_order_fees_split : forall w, 1 <= w -> forall unit, 0 < unit -> forall p pmin pmax size bc pl r fv,
+  wf_params p -> 0 <= size -> 0 <= pmin -> 0 <= pmax ->
+  order_fees w unit p pmin pmax size bc = Ok (pl, r, fv) ->
+  pmin <> 0 /\ pmax <> 0 /\ fee w unit p bc size = Some fv /\
+  pl + r = fv / pmin /\ 0 <= pl /\ 0 <= r /\
+  receiver_fee w unit p (fv / pmin) = Some r /\
+  (factor_of p bc <= unit -> fv <= size).
+Proof. use order_fees_ok. Qed.
+
+Theorem c02_order_fees_valid_total : forall w, 1 <= w -> forall unit, 0 < unit -> forall p pmin pmax size bc,
+  wf_params p -> valid_params unit p -> 0 <= size < 2 ^ w -> 0 < pmin -> 0 < pmax ->
+  exists pl r fv, order_fees w unit p pmin pmax size bc = Ok (pl, r, fv).
+Proof. use order_fees_valid_total. Qed.
+
+(* known finding 1 (OrderFeeFactorAboveUnit): with a factor above 100% the order path does not fail
+   and the fee value exceeds the size delta *)
+Theorem c02_order_fee_above_unit_refuted :
+  exists p pmin pmax size bc pl r fv, wf_params p /\
+    order_fees 64 (10 ^ 9) p pmin pmax size bc = Ok (pl, r, fv) /\ size < fv.
+Proof.
+  exists (MkFP 1500000000 500000000 0 None), 1, 1, 1000000, Improved, 1500000, 0, 1500000.
+  split; [unfold wf_params; simpl; lia|]. split; [vm_compute; reflexivity|lia].
+Qed.
+
+(* liquidation fee: value floors, amount is the CEILING of value / min price
+   (complement of known-finding class 2 for the bound) *)
+Theorem c02_liquidation_fee_round_up : forall w, 1 <= w -> forall unit, 0 < unit -> forall lp size pmin fv fa r,
+  0 <= lp_factor lp -> 0 <= lp_recv lp -> 0 <= size -> 0 <= pmin ->
+  liq_fee w unit lp size pmin = Ok (fv, fa, r) ->
+  (lp_factor lp = 0 /\ fv = 0 /\ fa = 0 /\ r = 0) \/
+  (lp_factor lp <> 0 /\ pmin <> 0 /\ fv = size * lp_factor lp / unit /\
+   pmin * (fa - 1) < fv <= pmin * fa /\ r = fa * lp_recv lp / unit /\ 0 <= fa /\
+   (lp_factor lp <= unit -> fv <= size) /\ (lp_recv lp <= unit -> r <= fa)).
+Proof. use liq_fee_ok. Qed.
+
+Theorem c02_liq_fee_above_unit_refuted :
+  exists lp size pmin fv fa r, 0 <= lp_factor lp /\ 0 <= lp_recv lp /\
+    liq_fee 64 (10 ^ 9) lp size pmin = Ok (fv, fa, r) /\ size < fv.
+Proof.
+  exists (MkLP 1500000000 0), 1000, 1, 1500, 1500, 0. simpl.
+  split; [lia|]. split; [lia|]. split; [vm_compute; reflexivity|lia].
+Qed.
+
+(* PositionFees: the parts are assembled unchanged, and pool share + receiver share = total cost *)
+Theorem c02_position_fees_parts : forall w unit p lp brf pmin pmax size bc is_liq bval funding f,
+  position_fees w unit p lp brf pmin pmax size bc is_liq bval funding = Ok f ->
+  order_fees w unit p pmin pmax size bc = Ok (pf_pool f, pf_recv f, pf_fee_value f) /\
+  (if is_liq then exists x, liq_fee w unit lp size pmin = Ok x /\ pf_liq f = Some x else pf_liq f = None) /\
+  udiv w bval pmin = Some (pf_bamount f) /\
+  apply_factor w unit (pf_bamount f) brf = Some (pf_brecv f) /\
+  uadd w (pf_fee_value f) bval = Some (pf_paid f) /\ pf_funding f = funding.
+Proof. exact position_fees_ok. Qed.
+
+Theorem c02_totals_conserved : forall w f x y t,
+  for_receiver w f = Ok x -> for_pool w f = Ok y -> total_cost_excl w f = Ok t -> x + y = t.
+Proof. exact totals_conserved. Qed.
+
+Theorem c02_total_cost_ok : forall w, 1 <= w -> forall f t, total_cost w f = Ok t ->
+  exists t0, total_cost_excl w f = Ok t0 /\ t = t0 + pf_funding f.
+Proof. exact total_cost_ok. Qed.
+
+(* non-vacuity *)
+Example c02_ex1 :
+  apply_fees 64 (10 ^ 9) (MkFP 500000 700000 370000000 (Some 100000000)) Worsened 5420568315936659214
+  = Some (5417153357897619119, 2151423564595260, 1263534474444835).
+Proof. vm_compute. reflexivity. Qed.
+Example c02_ex2 : apply_fees 64 (10 ^ 9) (MkFP 1500000000 0 0 None) Improved 1000 = None
+  /\ order_fees 128 (10 ^ 20) (MkFP 0 (10 ^ 20) (37 * 10 ^ 18) None) 7 9 1000 Unchanged = Ok (90, 52, 1000).
+Proof. vm_compute. split; reflexivity. Qed.
+Example c02_ex3 : liq_fee 64 (10 ^ 9) (MkLP 2000000 370000000) 1000000 7 = Ok (2000, 286, 105).
+Proof. vm_compute. reflexivity. Qed.
